@@ -1,4 +1,5 @@
 pub mod c01;
+pub mod c02;
 pub mod c06;
 pub mod c12;
 pub mod c13;
